@@ -307,17 +307,20 @@ func genReq(t *rapid.T, prev *ReqSpec) *ReqSpec {
 
 func genAdminCase(t *rapid.T) AdminCase {
 	c := AdminCase{Vals: genVals(t)}
-	n := rapid.IntRange(1, 9).Draw(t, "nops")
+	n := rapid.IntRange(1, 12).Draw(t, "nops")
 	var prev *ReqSpec
 	reqs := 0
 	for i := 0; i < n; i++ {
-		k := rapid.IntRange(0, 9).Draw(t, "opkind")
-		switch {
-		case k <= 5 || reqs == 0:
+		k := rapid.SampledFrom([]string{"req", "end", "req", "replay", "req", "end", "req", "replay"}).Draw(t, "opkind")
+		if reqs == 0 {
+			k = "req"
+		}
+		switch k {
+		case "req":
 			prev = genReq(t, prev)
 			c.Ops = append(c.Ops, Op{Kind: "req", Req: prev})
 			reqs++
-		case k <= 7:
+		case "replay":
 			c.Ops = append(c.Ops, Op{Kind: "replay", Of: rapid.IntRange(0, reqs-1).Draw(t, "of"), Sender: rapid.IntRange(-1, nAccts-1).Draw(t, "replaysender")})
 		default:
 			c.Ops = append(c.Ops, Op{Kind: "end", Restart: rapid.IntRange(0, 2).Draw(t, "restart") == 0})
